@@ -781,7 +781,7 @@ def run(ctx):
             add(seq_case(seq, rng.randrange(0, 4), rng), f"exhaustive{length}")
             n_exh += 1
     nxt = canon_sequences(full_len + 1) if ctx.quick() else None
-    n_sample = int(scale * (700 if ctx.quick() else 4000))
+    n_sample = int(scale * (500 if ctx.quick() else 4000))
     if nxt is not None:
         for seq in rng.sample(nxt, min(n_sample, len(nxt))):
             add(seq_case(seq, rng.randrange(0, 4), rng), f"sampled{full_len + 1}")
